@@ -283,3 +283,21 @@ def body(check):
         check.guarded("TH-SCHEME", c.qualname, lambda: th_scheme(check, proj, c), c.loc())
     check.guarded("JAC-GUARD", "integration.implicitmodel.calc_jacobian", lambda: jac_guard(check, proj))
     check.guarded("FD-COLUMN", "integration.implicitmodel.calc_jacobian", lambda: fd_column(check, proj))
+    check.guarded("FD-STEP-ZERO", "integration.implicitmodel.calc_jacobian", lambda: fd_step_zero(check, proj))
+
+
+def fd_step_zero(check, proj):
+    """the perturbation eps_q = rel * mean|data_q| has no positive floor: for an admissible
+    state with an identically vanishing component (momentum of a state at rest) eps_q = 0
+    and the finite-difference column is 0/0"""
+    c = proj.cls("integration.implicit")
+    fq = proj.resolve(c, "calc_jacobian")
+    ai, f, jm = run_jacobian(proj, c)
+    if not isinstance(jm, JacMat) or not jm.stores:
+        check.undecided("FD-STEP-ZERO", fq.qualname, "Jacobian stores not found", fq.loc())
+        return
+    pure = [v.eps for (idx, v, sloc) in jm.stores if isinstance(v, FDQuot)]
+    if pure and all(type(e).__name__ == "EpsVal" for e in pure):
+        check.violation("FD-STEP-ZERO", fq.qualname, "the perturbation of component q is rel*mean|data_q| with no positive floor: for a state with an identically zero component (momentum of a flow at rest) the step is 0 and the Jacobian column is 0/0 = NaN, so implicit / Crank-Nicolson / gear do not preserve a state at rest", fq.loc(), key="eps-zero")
+    else:
+        check.ok("FD-STEP-ZERO", fq.qualname, "perturbation has a positive floor", fq.loc())
